@@ -44,6 +44,9 @@ type Storage struct {
 	Stores  int // number of successful Store calls (write log length)
 	Removes int
 	Once    bool // store-once semantics for node records: a second Store of the same id reports a duplicate record
+	// StrictRemove: removing an entry that is not there is reported as the library's not-found error, as the
+	// library asks storage implementations to do where they can (registration/register_server_led.go).
+	StrictRemove bool
 }
 
 func Kind(m proto.Message) int {
@@ -95,12 +98,47 @@ func (s *Storage) Remove(ctx context.Context, m nodeenrollment.MessageWithId) er
 	k := Kind(m)
 	for i := range s.Entries {
 		if s.Entries[i].Kind == k && s.Entries[i].Id == m.GetId() {
+			gone := s.Entries[i].Gone
 			s.Entries = append(s.Entries[:i], s.Entries[i+1:]...)
+			if gone && s.StrictRemove {
+				return nodeenrollment.ErrNotFound
+			}
 			s.Removes++
 			return nil
 		}
 	}
+	if s.StrictRemove {
+		return nodeenrollment.ErrNotFound
+	}
 	return nil
+}
+
+// Racing forwards to Inner and lets a competing actor act once, right after the first successful Load of a
+// message of kind Kind: AfterLoad runs at that instant (e.g. the same token being used up by another request,
+// or revoked by the operator). It models one interleaving point of two calls on the same storage.
+type Racing struct {
+	Inner     nodeenrollment.Storage
+	Kind      int
+	AfterLoad func()
+	Fired     bool
+}
+
+func (r *Racing) Store(ctx context.Context, m nodeenrollment.MessageWithId) error {
+	return r.Inner.Store(ctx, m)
+}
+func (r *Racing) Load(ctx context.Context, m nodeenrollment.MessageWithId) error {
+	err := r.Inner.Load(ctx, m)
+	if err == nil && !r.Fired && Kind(m) == r.Kind {
+		r.Fired = true
+		r.AfterLoad()
+	}
+	return err
+}
+func (r *Racing) Remove(ctx context.Context, m nodeenrollment.MessageWithId) error {
+	return r.Inner.Remove(ctx, m)
+}
+func (r *Racing) List(ctx context.Context, m proto.Message) ([]string, error) {
+	return r.Inner.List(ctx, m)
 }
 
 func (s *Storage) List(ctx context.Context, m proto.Message) ([]string, error) {
@@ -372,7 +410,16 @@ type Peer struct {
 	NotTLS       bool  // writes bytes that are not TLS, then closes
 	Abort        bool  // aborts with a fatal alert after the server's flight
 	AbortErr     error // what the server's handshake returns then (engine side; natively it is crypto/tls's *net.OpError)
+	Reset        bool  // completes the handshake, then resets the connection: the server's Close (close_notify write) fails
+	ResetErr     error // what the server's Close returns then (engine side; natively a write error on the reset connection)
 }
+
+// ConnReset mimics the error of a write on a connection the peer has reset.
+type ConnReset struct{}
+
+func (ConnReset) Error() string   { return "write: connection reset by peer" }
+func (ConnReset) Temporary() bool { return false }
+func (ConnReset) Timeout() bool   { return false }
 
 // RemoteAbort mimics the *net.OpError crypto/tls returns for a fatal alert from the peer: not temporary, not a timeout.
 type RemoteAbort struct{}
